@@ -122,23 +122,15 @@ impl Matcher {
                         return None;
                     }
                 }
-                Some(1) => {
+                // the needle starts with one or more characters that are not letters: look
+                // for the first of them (the rest is compared ignoring case); a prefilter on
+                // the whole non-letter prefix would have to report overlapping occurrences
+                Some(_) => {
                     (max_score, max_pos) = self.substring_match_ascii_with_prefilter(
                         haystack,
                         needle,
                         1,
                         Memchr::new(needle[0], &haystack[..haystack.len() - needle.len() + 1]),
-                    );
-                    if max_score == 0 {
-                        return None;
-                    }
-                }
-                Some(len) => {
-                    (max_score, max_pos) = self.substring_match_ascii_with_prefilter(
-                        haystack,
-                        needle,
-                        1,
-                        memmem::find_iter(&haystack[..haystack.len() - needle.len() + len], needle),
                     );
                     if max_score == 0 {
                         return None;
